@@ -457,17 +457,73 @@ pub fn logical_lines(text: &str) -> Vec<String> {
 // ---------------------------------------------------------------------------
 // C32: relations are sets; write reports are accurate
 
-const C32_OPS: [(&str, &str); 9] = [
-    ("ins12", "+e(1, 2)"),
-    ("ins_bulk_dup", "+e[(1, 2), (1, 2), (3, 4)]"),
-    ("del12", "-e(1, 2)"),
-    ("del_bulk", "-e[(1, 2), (5, 6)]"),
-    ("cond_del", "-e(X, Y) <- e(X, Y), X < 2"),
-    ("insf1", "+f(1)"),
-    ("cond_del_f", "-e(X, 2) <- f(X)"),
-    ("update", "-e(X, Y), +e(X, 5) <- e(X, Y), Y < 3"),
-    ("ins15", "+e(1, 5)"),
-];
+#[derive(Clone, Debug)]
+enum K32 {
+    Ins(Vec<(i64, i64)>),
+    Del(Vec<(i64, i64)>),
+    CondDel,
+    InsF1,
+    CondDelF,
+    Update,
+}
+#[derive(Clone, Debug)]
+struct Op32 {
+    name: String,
+    text: String,
+    kind: K32,
+}
+
+fn tuples_text(ts: &[(i64, i64)]) -> String {
+    if ts.len() == 1 {
+        format!("e({}, {})", ts[0].0, ts[0].1)
+    } else {
+        format!("e[{}]", ts.iter().map(|(a, b)| format!("({a}, {b})")).collect::<Vec<_>>().join(", "))
+    }
+}
+fn op_ins(ts: &[(i64, i64)]) -> Op32 {
+    Op32 { name: format!("ins{ts:?}"), text: format!("+{}", tuples_text(ts)), kind: K32::Ins(ts.to_vec()) }
+}
+fn op_del(ts: &[(i64, i64)]) -> Op32 {
+    Op32 { name: format!("del{ts:?}"), text: format!("-{}", tuples_text(ts)), kind: K32::Del(ts.to_vec()) }
+}
+fn ops_special() -> Vec<Op32> {
+    vec![
+        Op32 { name: "cond_del".into(), text: "-e(X, Y) <- e(X, Y), X < 2".into(), kind: K32::CondDel },
+        Op32 { name: "insf1".into(), text: "+f(1)".into(), kind: K32::InsF1 },
+        Op32 { name: "cond_del_f".into(), text: "-e(X, 2) <- f(X)".into(), kind: K32::CondDelF },
+        Op32 { name: "update".into(), text: "-e(X, Y), +e(X, 5) <- e(X, Y), Y < 3".into(), kind: K32::Update },
+    ]
+}
+/// narrow alphabet (explored deep)
+fn c32_narrow() -> Vec<Op32> {
+    let mut v = vec![op_ins(&[(1, 2)]), op_ins(&[(1, 2), (1, 2), (3, 4)]), op_del(&[(1, 2)]), op_del(&[(1, 2), (5, 6)]), op_ins(&[(1, 5)])];
+    v.extend(ops_special());
+    v
+}
+/// wide alphabet (explored shallow): EVERY bulk insert of 1..3 tuples and every bulk delete of 1..2 tuples over the
+/// tuple domain, i.e. every in-batch duplicate pattern (adjacent, non-adjacent, with stored / absent tuples)
+fn c32_wide() -> Vec<Op32> {
+    let dom = [(1i64, 2i64), (3, 4), (1, 5)];
+    let ddom = [(1i64, 2i64), (3, 4), (1, 5), (5, 6)];
+    let mut v = vec![];
+    for a in dom {
+        v.push(op_ins(&[a]));
+        for b in dom {
+            v.push(op_ins(&[a, b]));
+            for c in dom {
+                v.push(op_ins(&[a, b, c]));
+            }
+        }
+    }
+    for a in ddom {
+        v.push(op_del(&[a]));
+        for b in ddom {
+            v.push(op_del(&[a, b]));
+        }
+    }
+    v.extend(ops_special());
+    v
+}
 
 #[derive(Clone, Default, Debug)]
 struct M32 {
@@ -475,48 +531,36 @@ struct M32 {
     f: BTreeSet<i64>,
 }
 
-/// Apply op to the model; return the number the reply must report (None = no numeric claim).
-fn m32_step(m: &mut M32, op: &str) -> (Option<(usize, usize)>, &'static str) {
+/// Apply op to the model; return the numbers the reply must report and the reply's leading word.
+fn m32_step(m: &mut M32, op: &K32) -> (Option<(usize, usize)>, &'static str) {
     match op {
-        "ins12" => {
-            let n = m.e.insert((1, 2)) as usize;
+        K32::Ins(ts) => {
+            let n = ts.iter().filter(|t| m.e.insert(**t)).count();
             (Some((n, 0)), "Inserted")
         }
-        "ins15" => {
-            let n = m.e.insert((1, 5)) as usize;
-            (Some((n, 0)), "Inserted")
-        }
-        "ins_bulk_dup" => {
-            let n = m.e.insert((1, 2)) as usize + m.e.insert((3, 4)) as usize;
-            (Some((n, 0)), "Inserted")
-        }
-        "del12" => {
-            let n = m.e.remove(&(1, 2)) as usize;
+        K32::Del(ts) => {
+            let n = ts.iter().filter(|t| m.e.remove(*t)).count();
             (Some((n, 0)), "Deleted")
         }
-        "del_bulk" => {
-            let n = m.e.remove(&(1, 2)) as usize + m.e.remove(&(5, 6)) as usize;
-            (Some((n, 0)), "Deleted")
-        }
-        "cond_del" => {
+        K32::CondDel => {
             let victims: Vec<(i64, i64)> = m.e.iter().filter(|(x, _)| *x < 2).cloned().collect();
             for v in &victims {
                 m.e.remove(v);
             }
             (Some((victims.len(), 0)), "Conditional delete")
         }
-        "insf1" => {
+        K32::InsF1 => {
             let n = m.f.insert(1) as usize;
             (Some((n, 0)), "Inserted")
         }
-        "cond_del_f" => {
+        K32::CondDelF => {
             let victims: Vec<(i64, i64)> = m.e.iter().filter(|(x, y)| *y == 2 && m.f.contains(x)).cloned().collect();
             for v in &victims {
                 m.e.remove(v);
             }
             (Some((victims.len(), 0)), "Conditional delete")
         }
-        "update" => {
+        K32::Update => {
             // matched bindings: (X,Y) in e with Y<3; delete e(X,Y), insert e(X,5)
             let matched: Vec<(i64, i64)> = m.e.iter().filter(|(_, y)| *y < 3).cloned().collect();
             let mut deleted = 0;
@@ -533,7 +577,6 @@ fn m32_step(m: &mut M32, op: &str) -> (Option<(usize, usize)>, &'static str) {
             }
             (Some((deleted, inserted)), "Update")
         }
-        _ => (None, ""),
     }
 }
 
@@ -558,15 +601,35 @@ fn first_numbers(msg: &str) -> Vec<usize> {
     out
 }
 
-fn c32_one(h: &[usize]) -> Option<(String, String)> {
+fn op_class(o: &Op32) -> &'static str {
+    match &o.kind {
+        K32::Ins(ts) if ts.len() == 1 => "single_insert",
+        K32::Ins(ts) => {
+            let set: BTreeSet<&(i64, i64)> = ts.iter().collect();
+            if set.len() == ts.len() {
+                "bulk_insert"
+            } else {
+                "bulk_insert_with_in_batch_duplicate"
+            }
+        }
+        K32::Del(ts) if ts.len() == 1 => "single_delete",
+        K32::Del(_) => "bulk_delete",
+        K32::CondDel | K32::CondDelF => "conditional_delete",
+        K32::InsF1 => "single_insert",
+        K32::Update => "update",
+    }
+}
+
+fn c32_one(alpha: &[Op32], h: &[usize]) -> Option<(String, String)> {
     let env = Env::new("c32");
     env.create_kg("A");
     let mut m = M32::default();
-    let names: Vec<&str> = h.iter().map(|i| C32_OPS[*i].0).collect();
+    let names: Vec<&str> = h.iter().map(|i| alpha[*i].text.as_str()).collect();
     for (step, i) in h.iter().enumerate() {
-        let (name, text) = C32_OPS[*i];
+        let op = &alpha[*i];
+        let (name, text) = (op_class(op), op.text.as_str());
         let res = env.query_program(Some("A"), text);
-        let (expect, word) = m32_step(&mut m, name);
+        let (expect, word) = m32_step(&mut m, &op.kind);
         let msgs = messages(&res);
         if res.is_err() {
             return Some((format!("request_failed:{name}"), format!("history {names:?} step {step}: {msgs:?}")));
@@ -586,7 +649,6 @@ fn c32_one(h: &[usize]) -> Option<(String, String)> {
             }
         }
         // contents
-        let st = env.kg_state("A");
         let got_e: Vec<String> = {
             let s = env.handler.get_storage();
             let snap = s.get_snapshot_for("A").unwrap();
@@ -601,7 +663,6 @@ fn c32_one(h: &[usize]) -> Option<(String, String)> {
         if want != have {
             return Some((format!("contents_differ_from_set_model:{name}"), format!("history {names:?} step {step} ({text}): stored {have:?} but set model {want:?}")));
         }
-        let _ = st;
         // the query path must agree and be duplicate free
         let q = env.query_program(Some("A"), "?e(X, Y)");
         if let Ok(qr) = &q {
@@ -617,26 +678,13 @@ fn c32_one(h: &[usize]) -> Option<(String, String)> {
     None
 }
 
-pub fn c32(args: &Args) -> i32 {
-    quiet_panics();
-    if let Some(p) = &args.replay {
-        let j = read_replay(p);
-        let h: Vec<usize> = serde_json::from_value(j["case"]["history_idx"].clone()).expect("history_idx");
-        let r = c32_one(&h);
-        if let Some((c, d)) = &r {
-            println!("class={c} {d}\nVIOLATION property=C32 replay={}", p.display());
-        }
-        return r.is_some() as i32;
-    }
-    let run = Run::new(args, "model_checking", 55.0, 1500.0);
-    let max_len = if run.quick() { 4 } else { 6 };
-    run.set_rule("all histories up to the depth bound over 9 write statements (single insert, bulk insert with in-batch duplicate, single delete, bulk delete with absent tuple, two conditional deletes, update, helper inserts) submitted one request each through Handler::query_program on a fresh KG; after every step the stored relation and the ?e answer must equal the set model without duplicates, and the numbers in the Inserted/Deleted/Conditional delete/Update reply must equal the model's change. non-trivial = all histories (every symbol is a write)");
+fn all_histories(n: usize, max_len: usize) -> Vec<Vec<usize>> {
     let mut hist: Vec<Vec<usize>> = vec![];
     let mut level: Vec<Vec<usize>> = vec![vec![]];
     for _ in 0..max_len {
         let mut nx = vec![];
         for p in &level {
-            for i in 0..C32_OPS.len() {
+            for i in 0..n {
                 let mut q = p.clone();
                 q.push(i);
                 nx.push(q);
@@ -645,35 +693,62 @@ pub fn c32(args: &Args) -> i32 {
         hist.extend(nx.iter().cloned());
         level = nx;
     }
-    // prefix-closed enumeration: a history's prefixes are checked as their own cases, so only check the last step's novelty
-    run.put("histories", json!(hist.len()));
-    let states = std::sync::Mutex::new(BTreeSet::new());
-    let done = run.par_for(hist.len(), threads(), |i, l| {
-        let h = &hist[i];
-        l.eval();
-        l.nontrivial(i as u64);
-        let r = catch_unwind(AssertUnwindSafe(|| c32_one(h)));
-        match r {
-            Ok(None) => {
-                let mut m = M32::default();
-                for x in h {
-                    m32_step(&mut m, C32_OPS[*x].0);
-                }
-                let k = fnv(format!("{m:?}").as_bytes());
-                l.outcome(k);
-                states.lock().unwrap().insert(k);
-                if run.want_sample() && i % 211 == 0 {
-                    run.sample(json!({"history": h.iter().map(|x| C32_OPS[*x].1).collect::<Vec<_>>()}));
-                }
-            }
-            Ok(Some((class, detail))) => run.violation(&class, json!({"history_idx": h, "history": h.iter().map(|x| C32_OPS[*x].1).collect::<Vec<_>>()}), detail),
-            Err(pn) => run.violation("panic", json!({"history_idx": h}), crate::e1::panic_msg(&pn)),
+    hist
+}
+
+pub fn c32(args: &Args) -> i32 {
+    quiet_panics();
+    let (narrow, wide) = (c32_narrow(), c32_wide());
+    if let Some(p) = &args.replay {
+        let j = read_replay(p);
+        let h: Vec<usize> = serde_json::from_value(j["case"]["history_idx"].clone()).expect("history_idx");
+        let alpha = if j["case"]["leg"] == "wide" { &wide } else { &narrow };
+        let r = c32_one(alpha, &h);
+        if let Some((c, d)) = &r {
+            println!("class={c} {d}\nVIOLATION property=C32 replay={}", p.display());
         }
-    });
+        return r.is_some() as i32;
+    }
+    let run = Run::new(args, "model_checking", 55.0, 1500.0);
+    let (deep, shallow) = if run.quick() { (4, 2) } else { (6, 3) };
+    run.set_rule("two legs, each ALL histories up to its depth bound, one request per step through Handler::query_program on a fresh KG: (narrow, deep) 9 write statements (single insert, bulk insert with in-batch duplicate, single delete, bulk delete with absent tuple, two conditional deletes, update, helper inserts); (wide, shallow) 63 statements: EVERY bulk insert of 1..3 tuples and EVERY bulk delete of 1..2 tuples over a 3(+1 absent)-tuple domain (all in-batch duplicate patterns) plus the conditional deletes and the update. After every step the stored relation and the ?e answer must equal the set model without duplicates, and the numbers in the Inserted/Deleted/Conditional delete/Update reply must equal the model's change. non-trivial = all histories (every symbol is a write)");
+    let legs: Vec<(&str, &Vec<Op32>, Vec<Vec<usize>>)> = vec![("narrow", &narrow, all_histories(narrow.len(), deep)), ("wide", &wide, all_histories(wide.len(), shallow))];
+    let states = std::sync::Mutex::new(BTreeSet::new());
+    let mut transitions = 0u64;
+    let mut traces = 0u64;
+    for (leg, alpha, hist) in &legs {
+        run.put(&format!("histories_{leg}"), json!(hist.len()));
+        run.put(&format!("alphabet_{leg}"), json!(alpha.len()));
+        let done = run.par_for(hist.len(), threads(), |i, l| {
+            let h = &hist[i];
+            l.eval();
+            l.nontrivial(fnv(format!("{leg}{h:?}").as_bytes()));
+            let r = catch_unwind(AssertUnwindSafe(|| c32_one(alpha, h)));
+            match r {
+                Ok(None) => {
+                    let mut m = M32::default();
+                    for x in h {
+                        m32_step(&mut m, &alpha[*x].kind);
+                    }
+                    let k = fnv(format!("{m:?}").as_bytes());
+                    l.outcome(k);
+                    states.lock().unwrap().insert(k);
+                    if run.want_sample() && i % 211 == 0 {
+                        run.sample(json!({"leg": leg, "history": h.iter().map(|x| alpha[*x].text.clone()).collect::<Vec<_>>()}));
+                    }
+                }
+                Ok(Some((class, detail))) => run.violation(&class, json!({"leg": leg, "history_idx": h, "history": h.iter().map(|x| alpha[*x].text.clone()).collect::<Vec<_>>()}), detail),
+                Err(pn) => run.violation("panic", json!({"leg": leg, "history_idx": h}), crate::e1::panic_msg(&pn)),
+            }
+        });
+        transitions += hist.iter().take(done).map(|h| h.len() as u64).sum::<u64>();
+        traces += done as u64;
+    }
     run.put("states", json!(states.lock().unwrap().len()));
-    run.put("transitions", json!(hist.iter().take(done).map(|h| h.len() as u64).sum::<u64>()));
-    run.put("traces_validated_against_impl", json!(done));
-    run.put("depth_bound", json!(max_len));
+    run.put("transitions", json!(transitions));
+    run.put("traces_validated_against_impl", json!(traces));
+    run.put("depth_bound_narrow", json!(deep));
+    run.put("depth_bound_wide", json!(shallow));
     run.finish()
 }
 
